@@ -57,22 +57,25 @@ class FrechetAudioDistance(Metric[torch.Tensor]):
         model_input = model_input.to(self.device)
         return self.model(model_input)
 
-    def _update_state(self, state_prefix: str, waveforms: torch.Tensor) -> None:
-        n = getattr(self, f"{state_prefix}_n")
-        mean_partial = getattr(self, f"{state_prefix}_mean_partial")
-        cov_partial = getattr(self, f"{state_prefix}_cov_partial")
+    def _batch_statistics(
+        self, waveforms: torch.Tensor
+    ) -> tuple[int, torch.Tensor, torch.Tensor]:
+        """Embedding statistics of a batch of waveforms, accumulated into fresh tensors:
+        (number of embeddings, sum of embeddings (1, D), sum of outer products (D, D)).
+        Does not touch the metric state, so a failure leaves the metric unchanged."""
+        n = 0
+        mean_sum = torch.zeros_like(self.pred_mean_partial)
+        cov_sum = torch.zeros_like(self.pred_cov_partial)
 
         for idx in range(waveforms.size(0)):
             embedding = self._compute_embedding(
                 waveforms[idx]
             )  # (n_example, embedding_dim)
             n += embedding.size(0)
-            mean_partial += embedding.sum(0).unsqueeze(0)
-            cov_partial += embedding.T @ embedding
+            mean_sum += embedding.sum(0).unsqueeze(0)
+            cov_sum += embedding.T @ embedding
 
-        setattr(self, f"{state_prefix}_n", n)
-        setattr(self, f"{state_prefix}_mean_partial", mean_partial)
-        setattr(self, f"{state_prefix}_cov_partial", cov_partial)
+        return n, mean_sum, cov_sum
 
     @torch.inference_mode()
     # pyre-ignore[14]: inconsistent override on *_:Any, **__:Any
@@ -86,8 +89,16 @@ class FrechetAudioDistance(Metric[torch.Tensor]):
             targets (torch.Tensor): Target waveforms, with shape (C, U)
 
         """
-        self._update_state("pred", preds)
-        self._update_state("target", targets)
+        # compute the statistics of BOTH arguments before touching any state, so that a
+        # failure on either argument leaves the metric exactly as it was
+        pred_n, pred_mean_sum, pred_cov_sum = self._batch_statistics(preds)
+        target_n, target_mean_sum, target_cov_sum = self._batch_statistics(targets)
+        self.pred_n += pred_n
+        self.pred_mean_partial += pred_mean_sum
+        self.pred_cov_partial += pred_cov_sum
+        self.target_n += target_n
+        self.target_mean_partial += target_mean_sum
+        self.target_cov_partial += target_cov_sum
         return self
 
     @torch.inference_mode()
